@@ -7,6 +7,10 @@ from vf import schemas
 from vf.report import MachineryDefect, Run
 
 EXTRA_VALID = [
+    # descriptions (and deprecations, defaults) belong to the element that declares them: nothing is inherited from an implemented interface, a sibling or the other way round
+    'interface I { "documented on the interface" a("arg doc" n: Int = 1): Int @deprecated(reason: "old") b: Int } type A implements I { a(n: Int): Int "only here" b: Int } '
+    'type Query implements I { a(n: Int = 2): Int b: Int } extend interface I { "ext" c: Int } extend type A { c: Int } extend type Query { c: Int }',
+    'interface J { x: Int } type Query implements J { "documented on the object only" x: Int @deprecated } input In { "d" a: Int b: Int } enum E { "d" A B }',
     'schema { query: Q mutation: M subscription: Su } type Q { a: Int } type M { b: Int } type Su { c: Int }',
     'type Query { self: Query list: [[Query!]]! } extend type Query { more(a: In = {x: 1, deep: {x: 2}}): Int } input In { x: Int! = 3 deep: In }',
     '"top" type Query { "field" a("arg" x: Int = 0 @deprecated): E @deprecated(reason: "r") } "en" enum E { "v" A @deprecated B } extend enum E { C }',
@@ -107,6 +111,20 @@ def split_into_extensions(doc, rnd):
     return doc
 
 
+def two_steps(text):
+    """-> (base text, rest text): the document with its `type Query` definition turned into an extension of a one-field base definition, or None.
+    Building base + rest in one go and extending the built base with rest must give the same schema, whatever the order of rest."""
+    from py_gql.lang import ast as A, parse, print_ast
+    doc = parse(text, allow_type_system=True)
+    q = [d for d in doc.definitions if isinstance(d, A.ObjectTypeDefinition) and d.name.value == "Query"]
+    if len(q) != 1 or any(isinstance(d, A.SchemaDefinition) for d in doc.definitions):
+        return None
+    q = q[0]
+    ext = A.ObjectTypeExtension(name=q.name, interfaces=q.interfaces, directives=q.directives, fields=q.fields)
+    rest = A.Document(definitions=[ext if d is q else d for d in doc.definitions])
+    return "type Query { vfBase: Int }", print_ast(rest)
+
+
 def self_referential_default(sdl):
     """some input type has a field WITH A DEFAULT whose type is an input type from which the first one can be reached again"""
     from py_gql.lang import ast as A, parse
@@ -186,6 +204,45 @@ def check(tier, seed):
                     bad = S6.closed(schema)
                     if bad:
                         run.violation("build_schema:type-references-are-the-registered-types", "; ".join(bad[:3]), dict(w, dangling=bad[:5]), True)
+    # the same definitions and extensions handed to extend_schema on top of a built base: a new type may be extended by the document that defines it, in any order
+    from py_gql.sdl import extend_schema
+    steps = 0
+    for sdl in sources:
+        doc = parse(sdl, allow_type_system=True)
+        if rnd.random() < 0.7:
+            doc = split_into_extensions(doc, rnd)
+        rnd.shuffle(doc.definitions)
+        text = print_ast(doc)
+        two = two_steps(text)
+        if two is None:
+            continue
+        base, rest = two
+        try:
+            whole = build_schema(base + "\n" + rest)
+        except Exception:
+            continue          # (what build_schema makes of such documents is judged above)
+        for strict in (True, False):
+            n += 1
+            steps += 1
+            w = {"base": base, "extension_document": rest, "strict": strict}
+            try:
+                got = extend_schema(build_schema(base), rest, strict=strict)
+            except GraphQLError as e:
+                run.violation("extend_schema:accepts-what-build-schema-accepts", "build_schema accepts base + document, extend_schema(build_schema(base), document, strict=%s) "
+                              "rejects it: %s: %s" % (strict, type(e).__name__, e), dict(w, error="%s: %s" % (type(e).__name__, e)), True)
+                continue
+            except Exception as e:
+                run.violation("build_schema:only-schema-errors", "extend_schema raised %r" % (e,), dict(w, exc=type(e).__name__), True)
+                continue
+            d1, d2 = S6.describe(whole), S6.describe(got)
+            # (a type called Mutation / Subscription added to a built schema does not become a root operation type by its name alone: roots are not compared)
+            d1, d2 = dict(d1, roots=None), dict(d2, roots=None)
+            if d1 != d2:
+                diff = sorted(k for k in set(d1) | set(d2) if d1.get(k) != d2.get(k)) if isinstance(d1, dict) and isinstance(d2, dict) else "descriptions differ"
+                run.violation("extend_schema:same-schema-as-build-schema", "extending the built base with the document and building base + document differ at %s" % (diff,),
+                              dict(w, differs_at=str(diff)[:300]), True)
+    if steps == 0:
+        raise MachineryDefect("no two-step extension case ran")
     # supplied types that the document itself does not define: referenced from a definition, only from an extension, only from a directive
     from py_gql.schema import Field, InputField, InputObjectType, ObjectType, String
     for label, text in [
